@@ -39,6 +39,14 @@ class SCheck(Check):
     K = {"quick": 4, "thorough": 16}
     log = "sandbox"
     compare_runs = False
+    FAULT_N = None  # {"quick": n, "thorough": m}: size of the optional single-fault pass (see run_item)
+
+    def fault_site(self, ev, case):
+        return False
+
+    def fault_errnos(self, ev):
+        from .fcheck import errnos_for
+        return errnos_for(ev)
     ustep_rate = 0.12  # share of schedule plans that also preempt in user space (single-stepping); see gen.sched_plan
 
     def gen_case(self, r, idx, tier):
@@ -68,7 +76,7 @@ class SCheck(Check):
                 continue
             gen.canon_case(case)
             plans = self.gen_plans(r, case, k)
-            yield {"case": case, "plans": plans, "case_id": i}
+            yield {"case": case, "plans": plans, "case_id": i, "tier": tier}
 
     def is_nontrivial(self, res, verdict, case):
         return res["stats"]["threads"] >= 3 and res["stats"]["sites"] > 10
@@ -98,6 +106,27 @@ class SCheck(Check):
                 runs.append(summarize(res, f, plan, extra))
                 if si == len(case["steps"]) - 1:
                     finals.append((plan, res, verdict))
+        # optional single-fault pass of a schedule-search check: one errno at selected calls of the first plan's run (deterministic up to
+        # the fault); the check's own oracle judges the faulted run ("exit 0 implies ..." stays true under any fault)
+        nf = self.FAULT_N.get(item.get("tier", "quick"), 0) if isinstance(self.FAULT_N, dict) else 0
+        if nf and len(case["steps"]) == 1 and item["plans"]:
+            import random
+            from .fcheck import errnos_for, robust_plan
+            plan = item["plans"][0]
+            res0, v0, t00 = run_step(sim, case, 0, plan, "sandbox", ignore=({k: set(v) for k, v in self.ignore_of(case, 0).items()} if self.ignore_of(case, 0) else None))
+            cands = [(ev, e) for ev in res0.get("events", []) if ev.get("site") is not None and self.fault_site(ev, case) for e in self.fault_errnos(ev)]
+            rr = random.Random(plan["seed"] ^ 0xfa17)
+            rr.shuffle(cands)
+            for ev, e in cands[:nf]:
+                p2 = dict(plan, faults=[{"site": ev["site"], "errno": e}], max_events=20 * res0["stats"]["steps"] + 5000)
+                ig = self.ignore_of(case, 0)
+                res2, v2, t2 = run_step(sim, case, 0, p2, self.log, ignore=({k: set(v) for k, v in ig.items()} if ig else None))
+                f2 = self.evaluate(res2, v2, case, 0, t2, p2)
+                for x in f2:
+                    if x.prop == self.prop:
+                        x.cls += ":after-%s-%s" % (ev["c"], e)
+                fired = any(x.get("fired") for x in res2["stats"].get("faults", []))
+                runs.append(summarize(res2, f2, robust_plan(p2, res2), {"nontrivial": bool(fired), "step": 0, "probes": {"fault:%s:%s" % (ev["c"], e): 1}}))
         if self.compare_runs and len(finals) > 1:
             extra_f = self.compare(case, finals)
             if extra_f:
